@@ -49,7 +49,7 @@ func ZZ_C15_Copies(sv *zzsv.T) {
 	}
 	mut := func(name string) *zzStmt { return stIncr(name, op, operand) }
 	var p *zzProg
-	scen := sv.Choice("scenario", 7)
+	scen := sv.Choice("scenario", 10)
 	switch scen {
 	case 0: // assignment copies
 		p = &zzProg{main: []*zzStmt{stSet("x", lit), stSet("y", xVar("x")), mut("y"), stT(xVar("y")), stRet(xVar("x"))}}
@@ -65,6 +65,13 @@ func ZZ_C15_Copies(sv *zzsv.T) {
 		p = &zzProg{main: []*zzStmt{stSet("n", xLit(0)), stWhile(xBin("<", xVar("n"), xLit(2)), stSet("x", lit), mut("x"), stT(xVar("x")), stSet("n", xBin("+", xVar("n"), xLit(1)))), stRet(xVar("x"))}}
 	case 5: // loop variable copies of array elements
 		p = &zzProg{main: []*zzStmt{stSet("x", lit), stSet("a", &zzExpr{kind: eArr, args: []*zzExpr{xVar("x"), xVar("x")}}), stEach("", "v", xVar("a"), mut("v"), stT(xVar("v"))), stRet(xVar("x"))}}
+	case 7: // mutate, copy, mutate again: the copy keeps the value it was given
+		p = &zzProg{main: []*zzStmt{stSet("x", lit), mut("x"), stSet("y", xVar("x")), mut("x"), stT(xVar("x")), stRet(xVar("y"))}}
+	case 8: // mutate, pass, mutate inside the callee
+		p = &zzProg{funcs: []*zzFunc{{name: "f", params: []string{"p"}, body: []*zzStmt{mut("p"), stRet(xVar("p"))}}},
+			main: []*zzStmt{stSet("x", lit), mut("x"), stSet("r", xCall("f", xVar("x"))), stT(xVar("r")), stRet(xVar("x"))}}
+	case 9: // remember the previous value of a counter inside a loop
+		p = &zzProg{main: []*zzStmt{stSet("x", lit), stSet("n", xLit(0)), stWhile(xBin("<", xVar("n"), xLit(2)), stSet("y", xVar("x")), mut("x"), stT(xVar("y")), stSet("n", xBin("+", xVar("n"), xLit(1)))), stRet(xVar("x"))}}
 	default: // object field: y = F; y op; F unchanged
 		sv.Assume(kind == 0)
 		p = &zzProg{main: []*zzStmt{stSet("y", xVar("F")), mut("y"), stT(xVar("y")), stRet(xVar("F"))}}
